@@ -19,6 +19,7 @@ import (
 	"github.com/alibaba/sentinel-golang/verifshim/vsched"
 	vsync "github.com/alibaba/sentinel-golang/verifshim/vsync"
 
+	"verifharness/chainx"
 	"verifharness/engine/sched"
 	"verifharness/engine/seq"
 	"verifharness/env"
@@ -36,6 +37,9 @@ type RuleSpec struct {
 type Config struct {
 	R1 RuleSpec  `json:"r1"`
 	R3 *RuleSpec `json:"r3,omitempty"`
+	// R1b is a second concurrency rule on r1 that selects the OTHER argument (the "decoy" every
+	// request carries at index 1): an entry can pass R1 and then be blocked by R1b.
+	R1b *RuleSpec `json:"r1b,omitempty"`
 }
 
 func (c Config) String() string { b, _ := json.Marshal(c); return string(b) }
@@ -46,6 +50,7 @@ type opDef struct {
 	val   string // "" = request without the selected argument
 	slot  int
 	miss  bool
+	later bool // a rule-check slot AFTER the hotspot slot rejects this request
 }
 
 func (o opDef) String() string {
@@ -53,6 +58,9 @@ func (o opDef) String() string {
 		return "poolMiss"
 	}
 	if o.enter {
+		if o.later {
+			return fmt.Sprintf("E(%s,%q,rejected-by-a-later-slot)", o.res, o.val)
+		}
 		return fmt.Sprintf("E(%s,%q)", o.res, o.val)
 	}
 	return fmt.Sprintf("X(%d)", o.slot)
@@ -71,6 +79,18 @@ type scen struct {
 	ops    []opDef
 	slots  [maxLive]*live
 	misses int
+	chain  *base.SlotChain
+}
+
+// laterBlocker sits between the hotspot slot (order 4000) and the circuit breaker slot (5000).
+type laterBlocker struct{}
+
+func (laterBlocker) Order() uint32 { return 4500 }
+func (laterBlocker) Check(ctx *base.EntryContext) *base.TokenResult {
+	if ctx.Input.Flag == 9 {
+		return base.NewTokenResultBlocked(base.BlockTypeUnknown)
+	}
+	return nil
 }
 
 func (s *scen) Name() string        { return s.cfg.String() }
@@ -114,6 +134,9 @@ func mkRule(res string, r RuleSpec) *hotspot.Rule {
 func (s *scen) Reset() {
 	env.ResetAll(env.DefaultGeometry, 1700000000000)
 	rules := []*hotspot.Rule{mkRule("r1", s.cfg.R1)}
+	if s.cfg.R1b != nil {
+		rules = append(rules, mkRule("r1", *s.cfg.R1b))
+	}
 	if s.cfg.R3 != nil {
 		rules = append(rules, mkRule("r3", *s.cfg.R3))
 	}
@@ -127,6 +150,8 @@ func (s *scen) Reset() {
 		s.slots[i] = nil
 	}
 	s.misses = 0
+	s.chain = chainx.NewPhaseChain(&chainx.Hooks{})
+	s.chain.AddRuleCheckSlot(laterBlocker{})
 }
 
 func (s *scen) spec(res string) RuleSpec {
@@ -174,7 +199,11 @@ func (s *scen) Apply(i int) (string, string) {
 		return o.String(), s.invariants(o)
 	}
 	spec := s.spec(o.res)
-	e, blk := sentinel.Entry(o.res, entryOpts(spec, o.val)...)
+	opts := append(entryOpts(spec, o.val), sentinel.WithSlotChain(s.chain))
+	if o.later {
+		opts = append(opts, sentinel.WithFlag(9))
+	}
+	e, blk := sentinel.Entry(o.res, opts...)
 	obs := o.String() + "=P"
 	want := true
 	if o.val != "" {
@@ -183,6 +212,19 @@ func (s *scen) Apply(i int) (string, string) {
 			th = v
 		}
 		want = s.liveCount(o.res, o.val) < th
+		if want && o.res == "r1" && s.cfg.R1b != nil {
+			// second rule: meters the decoy argument, i.e. all live r1 entries that carry arguments
+			want = s.liveCount("r1", "A")+s.liveCount("r1", "B") < s.cfg.R1b.Threshold
+		}
+	}
+	if o.later {
+		// whatever the hotspot rule says, this request is rejected (by it, or by the later slot) and
+		// must not occupy a unit afterwards
+		if blk == nil {
+			e.Exit()
+			return obs, fmt.Sprintf("%v was admitted", o)
+		}
+		return o.String() + "=B", s.invariants(o)
 	}
 	if blk != nil {
 		obs = o.String() + "=B"
@@ -238,6 +280,12 @@ func (s *scen) invariants(o opDef) string {
 		if _, ok := m["decoy"]; ok {
 			return fmt.Sprintf("after %v: a counter exists for an argument the rule does not select", o)
 		}
+		if res == "r1" && s.cfg.R1b != nil {
+			c2, _, _ := hotspot.VerifCounters("r1", 1)
+			if g, w := toMap(c2)["decoy"], s.liveCount("r1", "A")+s.liveCount("r1", "B"); g != w {
+				return fmt.Sprintf("after %v: per-value in-flight figure of the second rule of r1 = %d, live entries = %d", o, g, w)
+			}
+		}
 	}
 	for k, l := range s.slots {
 		if l == nil {
@@ -286,6 +334,7 @@ func mkOps() []opDef {
 			ops = append(ops, opDef{enter: true, res: res, val: v})
 		}
 	}
+	ops = append(ops, opDef{enter: true, res: "r1", val: "A", later: true})
 	for k := 0; k < maxLive; k++ {
 		ops = append(ops, opDef{slot: k})
 	}
@@ -306,6 +355,8 @@ func configs() []Config {
 		{R1: sp(1, nil, false, -1)},
 		{R1: sp(2, map[string]int64{"A": 0}, false, 0)},
 		{R1: sp(0, nil, false, 0)},
+		{R1: sp(2, nil, false, 0), R1b: &RuleSpec{Threshold: 2, Index: 1}},
+		{R1: sp(1, map[string]int64{"B": 2}, false, 0), R1b: &RuleSpec{Threshold: 1, Index: 1}, R3: &r3},
 	}
 }
 
